@@ -1,6 +1,6 @@
 From Coq Require Import ZArith List.
-From NV Require Import Common.Outcome Common.Conv Lang.Types Lang.Pattern Lang.SatStd Lang.Store.
+From NV Require Import Common.Outcome Common.Conv Lang.Types Lang.Pattern Lang.SatStd Lang.Store Lang.Convert.
 Require Extraction.
 Require Import ExtrOcamlBasic.
 Extraction "model.ml" conv_anchor type_of is_type is_type_old is_builtin to_type veq truthy elements
-  assign assign_top switch catch_bind call_bind lookup pat_size sat_std destructure run_stmt run_hist binop_std.
+  assign assign_top switch catch_bind call_bind lookup pat_size sat_std destructure run_stmt run_hist binop_std convert fields_std.
